@@ -37,6 +37,8 @@ Everything lives in `namespace BiotiteModel.C08`.
   trace paths, capped) — executable model only
 * `checkAlignment a b M gap mode trace score : Bool`  the verified checker
   (`true → Valid ∧ score mode … = score ∧ score ≤ opt`, see `Props/C08.lean`)
+* traceback (linear): `Dir`, `traceDirs mode M g a b V`, `Dir.pred/col`, `followLin dirs mx fuel p suffix c`,
+  `tracesLin mode M g a b V mx` — model of `get_trace_linear` + `follow_trace` (theorems `C08_traces_*`)
 * `checkAll a b M gap mode maxNumber traces score : Bool`  all of the above for every trace, plus
   pairwise distinctness of the non-empty traces and `traces.length ≤ maxNumber`.
 
@@ -456,6 +458,64 @@ def nPaths (mode : Mode) (gap : Gap) (M : Mat) (a b : Seq) : Nat :=
 
 def nTraces (mode : Mode) (gap : Gap) (M : Mat) (a b : Seq) (maxNumber : Nat) : Nat :=
   min maxNumber (nPaths mode gap M a b)
+
+/-! ## Traceback for linear penalties: `get_trace_linear` bits + `follow_trace` (additive, second pass) -/
+
+inductive Dir where
+  | diag | left | top
+  deriving DecidableEq, Repr
+
+/-- directions set in `trace_table[i, j]`, in the order `follow_trace` examines them (MATCH, GAP_LEFT, GAP_TOP);
+`V` is the score table (`Rec.val` in the theorems, a table lookup in the driver). -/
+def traceDirs (mode : Mode) (M : Mat) (g : Int) (a b : Seq) (V : Nat → Nat → Int) : Nat × Nat → List Dir
+  | (0, 0) => []
+  | (0, _ + 1) => if mode = .local then [] else [.left]
+  | (_ + 1, 0) => if mode = .local then [] else [.top]
+  | (i + 1, j + 1) =>
+    let fd := V i j + sub M a b i j
+    let fl := V (i + 1) j + (if mode = .semi ∧ i + 1 = a.length then 0 else g)
+    let ft := V i (j + 1) + (if mode = .semi ∧ j + 1 = b.length then 0 else g)
+    let mx := max3 fd fl ft
+    if mode = .local ∧ mx ≤ 0 then []
+    else (if fd = mx then [Dir.diag] else []) ++ (if fl = mx then [Dir.left] else [])
+      ++ (if ft = mx then [Dir.top] else [])
+
+def Dir.pred : Dir → Nat × Nat → Nat × Nat
+  | .diag, (i, j) => (i - 1, j - 1)
+  | .left, (i, j) => (i, j - 1)
+  | .top, (i, j) => (i - 1, j)
+
+/-- the alignment column a traceback step from cell `(i, j)` in direction `d` produces -/
+def Dir.col : Dir → Nat × Nat → Col
+  | .diag, (i, j) => .both (i - 1) (j - 1)
+  | .left, (_, j) => .gapA (j - 1)
+  | .top, (i, _) => .gapB (i - 1)
+
+/-- the `for k in range(1, len(next_indices))` loop: branches are followed while the counter is below `mx` -/
+def runBranches (mx : Nat) (run : Dir → Nat → List Aln × Nat) : List Dir → Nat → List Aln × Nat
+  | [], c => ([], c)
+  | d :: ds, c =>
+    if c < mx then
+      let r := run d (c + 1)
+      let r2 := runBranches mx run ds r.2
+      (r.1 ++ r2.1, r2.2)
+    else runBranches mx run ds c
+
+/-- `follow_trace` for one table: returns the finished traces (as alignments, forward order) and the counter.
+`fuel ≥ i + j + 1` always suffices (every step decreases `i + j`). -/
+def followLin (dirs : Nat × Nat → List Dir) (mx : Nat) : Nat → Nat × Nat → Aln → Nat → List Aln × Nat
+  | 0, _, _, c => ([], c)
+  | fuel + 1, p, suffix, c =>
+    match dirs p with
+    | [] => ([suffix], c)
+    | d0 :: ds =>
+      let b := runBranches mx (fun d c' => followLin dirs mx fuel (d.pred p) (d.col p :: suffix) c') ds c
+      let r0 := followLin dirs mx fuel (d0.pred p) (d0.col p :: suffix) b.2
+      (b.1 ++ r0.1, r0.2)
+
+/-- all traces `align_optimal` returns for a linear penalty in global / semi-global mode (one start cell) -/
+def tracesLin (mode : Mode) (M : Mat) (g : Int) (a b : Seq) (V : Nat → Nat → Int) (mx : Nat) : List Aln :=
+  ((followLin (traceDirs mode M g a b V) mx (a.length + b.length + 1) (a.length, b.length) [] 1).1).take mx
 
 /-- `align_optimal` with an affine penalty, `local=False` and an empty sequence raises IndexError
 (`trace_table[0, 1] = …` / `trace_table[1, 0] = …` on a table with a single column / row): known finding. -/
